@@ -2,6 +2,7 @@ package main
 
 import (
 	"fmt"
+	"go/types"
 	"strings"
 
 	"golang.org/x/tools/go/ssa"
@@ -442,6 +443,47 @@ func runC02(c *Ctx) {
 		}
 	}
 
+	// the module object itself carries no state between calls: everything the heights depend
+	// on lives in the store (and is reverted with it). A container or lock in Module/API/
+	// Endpoint is memory that survives a revert and is gone after a restart.
+	if pk := p.PkgByRel["pkg/consensus/liskbft"]; pk != nil {
+		nT := 0
+		for _, tn := range []string{"Module", "API", "Endpoint"} {
+			o := pk.Types.Scope().Lookup(tn)
+			if o == nil {
+				continue
+			}
+			st, ok := o.Type().Underlying().(*types.Struct)
+			if !ok {
+				continue
+			}
+			nT++
+			var bad []string
+			for i := 0; i < st.NumFields(); i++ {
+				f := st.Field(i)
+				switch u := f.Type().Underlying().(type) {
+				case *types.Map, *types.Slice, *types.Chan, *types.Array:
+					bad = append(bad, f.Name()+" "+f.Type().String())
+				case *types.Struct:
+					if m, _ := isMutexType(f.Type()); m || strings.HasPrefix(f.Type().String(), "sync.") {
+						bad = append(bad, f.Name()+" "+f.Type().String())
+					}
+				case *types.Pointer:
+					if m, _ := isMutexType(f.Type()); m {
+						bad = append(bad, f.Name()+" "+f.Type().String())
+					} else if _, isMap := u.Elem().Underlying().(*types.Map); isMap {
+						bad = append(bad, f.Name()+" "+f.Type().String())
+					}
+				}
+			}
+			c.Require("C02.D1 module-holds-no-state", "liskbft."+tn, "-", "the module object has no container or lock field: no memory of earlier blocks outside the (revertible, persistent) store", len(bad) == 0, strings.Join(bad, "; "))
+		}
+		c.MinInstances("C02.D1 module-holds-no-state", nT, 3)
+	}
+
+	// U1: height arithmetic on unsigned integers never wraps into a comparison
+	checkUnsignedDifferences(c, "C02.U1 unsigned-difference-guarded", func(fn *ssa.Function) bool { return strings.HasPrefix(FuncKey(fn), "pkg/consensus/liskbft.") }, c02UnsignedTable, 0)
+
 	// ---- D2
 	if upd := c.Anchor("pkg/consensus/liskbft.(*BFTVotes).updatePrevotesPrecommits"); upd != nil {
 		checkVoteDiscipline(c, "C02", upd, false)
@@ -569,4 +611,8 @@ func verifyMapRangeException(p *Program, f *ssa.Function) bool {
 		return true
 	}
 	return false
+}
+
+var c02UnsignedTable = []unsignedRow{
+	{fn: "pkg/consensus/liskbft.(*API).ImpliesMaximalPrevotes", frag: "MaxHeightGenerated(p2)) − 1)", reason: "currentHeight equals the header's height (anything else returned an error) and maxHeightGenerated >= height returned false, so currentHeight − maxHeightGenerated >= 1"},
 }
